@@ -77,7 +77,7 @@ def generate(rng, tier, idx):
         kit = KITS["M-RP"]
         ops = gen_mf.rpms_canonical_history(rng)
         K = {"compose": ops[0]["compose"], "adds": [o for o in ops if o["op"] == "add"]}
-        down = {"op": "rp_downgrade", "path": kit.path, "version": pick(rng, ["0.3", "0.3", "1.0", "1.1"])}
+        down = {"op": "rp_downgrade", "path": kit.path, "version": pick(rng, ["0.3", "0.3", "1.0", "1.1"]), "decorate": pick(rng, [None, None, "rpm", "dir"])}
     else:
         kit = KITS["M-TI"]
         K = kit.content(rng, tier)
